@@ -62,4 +62,8 @@ CHECKS["C17"] = dict(engine="obf", level="exploration", design_ref="7 C17",
          "several calls per instance; ObfObs.tla judges shape, unchanged numbers/booleans/untargeted values, length preservation, and functional / injective substitution across the whole life of an instance.",
     note="Trusted: TLC, pdata, the harness' dump. Injectivity of the Feistel cipher is only judged on the strings that occur; keys and name-like strings are accepted unchanged or consistently substituted (the statement does not pin them down).",
     technique="TLA+ spec enumerated by TLC (one implementation test per abstract case) + recorded calls validated by TLC against ObfObs.tla")
-NOT_APPLICABLE = {"C16": "check not built yet (planned: concurrent vs. alone digests under -race; DESIGN.md section 7 C16)"}
+CHECKS["C16"] = _otap("exploration", "Groups of 4-8 producer/consumer pairs with different options run their (seeded) histories alone and then all at once from different goroutines in a -race build; every batch decoded concurrently is compared by the RoundTrip.tla oracle (TLC) with what the same stream decoded alone, "
+                      "the exported package-level schemas and index tables are fingerprinted before and after, and a race-detector report is an event of the trace. The interleaving itself is not controlled (no hooks in pkg/).", "7 C16",
+                      technique="concurrent vs. alone histories validated by TLC against OtapObs.tla; data-race clause decided by the Go race detector")
+ENGINES[1]["serves_properties"].append("C16")
+NOT_APPLICABLE = {}
